@@ -202,7 +202,7 @@ func DrawWorld(t *rapid.T, o WorldOpts) *World {
 	w.P = &ChainParams{ChainID: []byte{0, 0, 0, 7}, GenesisHeight: gh, BlockTime: blockTime, BatchSize: batch, MaxTxSize: uint32(simkit.Int(t, "maxtxsize", 300, 15000)), MaxBlockCache: cache, KeepEvents: keep,
 		Pool: txpool.TransactionPoolConfig{MaxTransactions: 64, MaxTransactionsPerAccount: 8, MinReplacementFeeDifference: 10}, Module: mod}
 	if simkit.Bool(t, "smallmem") {
-		w.P.DBKnobs.MemTableSize = 256 << 10
+		w.P.DBKnobs.MemTableSize = 128 << 10
 	}
 	// the chain started 20 s before the simulation does, so that no (skewed) clock ever reads a time before genesis
 	g, err := BuildGenesis(w.P, uint32(simrt.Epoch.Unix())-20)
@@ -254,6 +254,15 @@ func (w *World) StartAll() {
 	}
 	if w.S.Adv != nil {
 		w.S.Adv.Start()
+	}
+}
+
+// Shutdown ends every node that is still up (databases closed, observers ended) so that a finished run holds no memory.
+func (w *World) Shutdown() {
+	for _, n := range append(append([]*Node{}, w.S.Nodes...), w.S.Detached...) {
+		if n.Up {
+			n.Stop(true, false)
+		}
 	}
 }
 
